@@ -560,6 +560,30 @@ def run(prog, rep, tier):
                 rep.violation(R137, "%s|pieces|%d" % (p, len(lines_)), "%s: %s; removing the colour escapes would not give back the line's bytes" % (p.split("::")[-1], problems[0]))
     rep.floor(R137, 12, "(colour variants slicing their line around the datetime)")
 
+    # ------------------------------------------------------------ R13.11 the -d format is rendered once before it is accepted
+    # chrono's `DateTime::format` is lazy: an invalid specifier or a trailing '%' surfaces only when the
+    # value is written, as a fmt::Error - and `to_string()` turns that into a panic in the printing
+    # thread.  The option parser must therefore write a formatted value and reject the option on error.
+    R1311 = rep.rule("R13.11", "--prepend-dt-format is validated by rendering a datetime with it")
+    vf = prog.body("s4::cli_parser_prepend_dt_format")
+    fcalls = [c for c in vf.live_calls() if c.d.endswith("DateTime::<Tz>::format") or c.d.split("::")[-1] == "format" and "chrono" in c.d]
+    rendered = False
+    for c in vf.live_calls():
+        last = (c.o or c.d).split("::")[-1]
+        if last in ("write_fmt", "write_str", "to_string", "fmt", "format") and c.d != (fcalls[0].d if fcalls else ""):
+            # its result is tested and one arm returns Err
+            if c.target is not None:
+                for sw in sorted(vf.reachable(c.target)):
+                    t_ = vf.term(sw)
+                    if t_[0] == "switch" and any(x[0] == "call" and x[1] == c.bb for x in vf.origins(t_[1], through_calls=("::is_err", "::is_ok", "::not"))):
+                        rendered = True
+    rep.examined(R1311, vf.path, sample={"format_calls": len(fcalls), "a_rendering_result_is_tested": rendered})
+    if not fcalls:
+        raise CheckerError("cli_parser_prepend_dt_format: no chrono format call")
+    if not rendered:
+        rep.violation(R1311, vf.path, "cli_parser_prepend_dt_format builds the lazy chrono formatter but never writes it; `-d '%H%'` or `-d '%Q'` is accepted and the first utmp/evtx/journal message panics in to_string() "
+                      "('a Display implementation returned an error'), text messages get an empty datetime field")
+
     # ------------------------------------------------------------ R13.9 one separator, literal in both fields
     # The same --prepend-separator text follows the file-name field and the datetime field.  The file
     # field is built with format!() (text is literal there); the datetime field is a strftime format,
